@@ -52,7 +52,44 @@ def _variant_run(v):
     return {"raw": oc.raw, "enum": st, "outfile": oc.outfile}
 
 
+_NEWPROC = r'''
+import sys, os, pickle
+sys.dont_write_bytecode = True
+sys.path.insert(0, %(verif)r)
+sys.path.insert(0, %(repo)r)
+from vf.props import env_family
+with open(sys.argv[1], "rb") as fd:
+    v = pickle.load(fd)
+devnull = os.open(os.devnull, os.O_RDWR)
+os.dup2(devnull, 1); os.dup2(devnull, 2)
+res = env_family._variant_run(v)
+with open(sys.argv[2], "wb") as fd:
+    pickle.dump(res, fd)
+'''
+
+
+def _variant_in_new_interpreter(v, hashseed, workdir):
+    """The same creation in a brand-new interpreter whose string hashing is seeded differently (sets and dicts of
+    strings iterate in another order there)."""
+    import pickle
+    os.makedirs(workdir, exist_ok=True)
+    a, b = os.path.join(workdir, "arg.pkl"), os.path.join(workdir, "res.pkl")
+    with open(a, "wb") as fd:
+        pickle.dump(v, fd)
+    envv = dict(os.environ, PYTHONHASHSEED=str(hashseed), PYTHONDONTWRITEBYTECODE="1")
+    try:
+        p = subprocess.run([sys.executable, "-B", "-c", _NEWPROC % {"verif": VERIF, "repo": REPO}, a, b], env=envv,
+                           timeout=120, capture_output=True)
+    except subprocess.TimeoutExpired:
+        return "timeout", None
+    if not os.path.exists(b):
+        return "died", (p.stderr or b"")[-1500:].decode("utf-8", "replace")
+    with open(b, "rb") as fd:
+        return "ok", pickle.load(fd)
+
+
 class C08:
+    rule_extra = ("Later additions: variant 'out-inside-payload' (metafile saved as a new file inside its own content directory, on a private copy), variants run after other work in the same process, copies with other mtimes / modes; 5 % of the directory cases contain dangling symbolic links, where only the consistency of the outcome across variants is judged.")
     id = "C08"
     quick, thorough = 400, 8000
     timeout = 180
@@ -189,9 +226,18 @@ class C08:
                         for ln in ("0-dangling", "m-dangling", "zz-dangling"):
                             if not os.path.lexists(os.path.join(d, ln)):
                                 os.symlink("nowhere/at/all", os.path.join(d, ln))
+        # trackers given with a repetition, created in interpreters with different string-hash seeds: the files
+        # must agree with each other (and, in their info dictionary, with everything else)
+        dup = gen.pick_urls(rng, 2, 4)
+        dup = dup + [dup[0]] + ([dup[1]] if rng.random() < 0.5 else [])
+        for hs in (rng.sample(range(1, 1000), 2) if rng.random() < 0.5 else []):
+            variants.append(variant("hashseed-dup-trackers", announce=dup, hashseed=hs))
         results = []
         for v in variants:
-            st, val = fork_call(_variant_run, v, timeout=120)
+            if v.get("hashseed"):
+                st, val = _variant_in_new_interpreter(v, v["hashseed"], os.path.join(scratch, "np", str(v["hashseed"])))
+            else:
+                st, val = fork_call(_variant_run, v, timeout=120)
             if st != "ok":
                 return {"inconclusive": f"variant process {st}", "traceback": str(val)[:1500]}
             results.append(val)
@@ -211,6 +257,7 @@ class C08:
         binfo = _info_span(base["raw"])
         bmask = mask_creation_date(base["raw"])
         compared = 0
+        hs_files = {}
         for v, r in zip(variants[1:], results[1:]):
             kind = v["kind"]
             if "raw" not in r:
@@ -229,6 +276,9 @@ class C08:
                     diffkeys, nm = None, None
                 viol.append(oracles.V("info-differs", variant=kind, path=v["path"], cwd=os.path.relpath(v["cwd"], scratch),
                                       differing_info_keys=diffkeys, names=nm))
+            elif kind == "hashseed-dup-trackers":
+                hs_files.setdefault(mask_creation_date(r["raw"]), []).append(v["hashseed"])
+                counters["new_interpreter_hashseed_variants"] = counters.get("new_interpreter_hashseed_variants", 0) + 1
             elif kind not in ("trackers", "no-trackers") and mask_creation_date(r["raw"]) != bmask:
                 viol.append(oracles.V("file-differs-beyond-creation-date", variant=kind))
             if kind.startswith("enum") and r["enum"]["nonsorted"] > 0:
@@ -241,6 +291,9 @@ class C08:
                 counters["tracker_variants"] = counters.get("tracker_variants", 0) + 1
             if kind == "clock":
                 counters["clock_variants"] = counters.get("clock_variants", 0) + 1
+        if len(hs_files) > 1:
+            viol.append(oracles.V("file-differs-between-interpreters", hash_seeds=sorted(hs_files.values())[:4],
+                                  distinct_files=len(hs_files)))
         counters["dot_ending_variants"] = dotend
         counters["variants_compared"] = compared
         multi_entry = len(tree["files"]) >= 2
@@ -277,6 +330,25 @@ def _do_op(op, sandbox):
     os.chdir(sandbox)
     p = lambda rel: os.path.join(sandbox, rel)  # noqa: E731
     kind = op["op"]
+    if kind == "create" and op["route"] == "config":
+        # create driven by a configuration file; every call names its own file with its own subset of keys
+        out = p(op["out"])
+        ini = p(op["ini_path"])
+        os.makedirs(os.path.dirname(ini), exist_ok=True)
+        lines = ["[config]"]
+        for k, v in op["ini"].items():
+            lines.append(f"{k} =" + ("".join("\n    " + x for x in v) if isinstance(v, list) else " " + str(v)))
+        lines.append("out = " + out)
+        with open(ini, "w", encoding="utf-8") as fd:
+            fd.write("\n".join(lines) + "\n")
+        oc = drive.cli_execute(["create", "--config", "--config-path", ini, "--prog", "0", p(op["path"])])
+        if not oc.ok:
+            return {"exc": oc.excname()}
+        try:
+            with open(out, "rb") as fd:
+                return {"raw": mask_creation_date(fd.read())}
+        except OSError as e:
+            return {"exc": "no-output:" + type(e).__name__}
     if kind == "create":
         out = p(op["out"])
         oc = drive.create(op["route"], p(op["path"]), out, piece_length=op.get("pl"), progress=op.get("progress", 0),
@@ -404,6 +476,7 @@ def _apply_fs(op, sandbox):
 
 
 class C09:
+    rule_extra = ('Later additions: histories contain operations that FAIL (hostile / undecodable metafiles, v2 metafiles whose deepest leaf lacks its length or root) followed by the same kind of operation on a good metafile, same-size rewrites that keep the mtime, and payloads crossing the automatic piece-length thresholds.')
     id = "C09"
     quick, thorough = 96, 1200
     timeout = 400
@@ -441,6 +514,21 @@ class C09:
             return {"op": "create", "route": route, "path": "p", "out": out,
                     "pl": rng.choice([None, None, 14, 16384, 15, 16]), "progress": rng.choice([0, 1, 2]),
                     "prefix": rng.choice([None, None, ["-q"], ["-v"]])}
+
+        def mk_config_create():
+            ver = rng.choice([1, 2, 3])
+            fresh_id[0] += 1
+            out = f"meta/m{fresh_id[0]}.torrent"
+            metas.append((out, ver))
+            ini = {"meta-version": ver}
+            for k, v in (("comment", "c" + str(fresh_id[0])), ("source", "S" + str(fresh_id[0])), ("private", "true"),
+                         ("announce", gen.pick_urls(rng, 1, 3)), ("web-seed", gen.pick_urls(rng, 1, 2)),
+                         ("http-seed", gen.pick_urls(rng, 1, 2)), ("piece-length", rng.choice([14, 15, 16384, 65536])),
+                         ("align", "true")):
+                if rng.random() < 0.4:
+                    ini[k] = v
+            return {"op": "create", "route": "config", "path": "p", "out": out, "ini": ini,
+                    "ini_path": rng.choice([f"cfg/c{fresh_id[0]}.ini", "cfg/same.ini"])}
 
         def mk_mut():
             k = rng.choice(["add", "delete", "grow", "shrink", "rewrite"])
@@ -507,7 +595,12 @@ class C09:
             if c < 0.28:
                 hist.append(mk_mut())
             elif c < 0.5:
-                hist.append(mk_create())
+                if rng.random() < 0.75:
+                    hist.append(mk_create())
+                else:
+                    hist.append(mk_config_create())
+                    if rng.random() < 0.6:
+                        hist.append(mk_config_create())      # ... and another one with another subset of keys
             elif c < 0.65 and metas:
                 m, _ = rng.choice(metas)
                 hist.append({"op": "recheck", "meta": m, "content": rng.choice(["p", "."]), "via": rng.choice(["lib", "cli"]),
@@ -571,6 +664,8 @@ class C09:
                 counters[op["op"] + "_steps"] = counters.get(op["op"] + "_steps", 0) + 1
                 if op.get("meta", "").endswith(("unsafe.torrent", "garbage.torrent", "nolength.torrent", "noroot.torrent")):
                     counters["failing_operation_steps"] = counters.get("failing_operation_steps", 0) + 1
+                if op["op"] == "create" and op["route"] == "config":
+                    counters["config_file_create_steps"] = counters.get("config_file_create_steps", 0) + 1
                 if op["op"] == "create":
                     creates_served += 1
                     if seen_mut_after_create:
